@@ -155,3 +155,96 @@ contract('gnpy.topology.spectrum_assignment.align_grids', name='gnpy.topology.sp
          ensures=[('common_extent', 'A.n_min == lo and A.n_max == hi and B.n_min == lo and B.n_max == hi'),
                   ('wf', 'WF(A) and WF(B)'), ('same_list', 'result is oms_list')],
          modifies=[f'oms_list[{k}].spectrum_bitmap.{f}' for k in range(2) for f in ('bitmap', 'freq_index', 'n_min', 'n_max')])
+
+# ================================================================== C14
+SPEC_ASG = SPEC_BM + '''
+def INRANGE(bm, nvalue, mvalue, k):
+    return nvalue - mvalue <= bm.n_min + k and bm.n_min + k <= nvalue + mvalue - 1
+'''
+contract('gnpy.topology.spectrum_assignment.OMS.assign_spectrum', props=['C14'],
+         params={'self': OMSB('a'), 'nvalue': integer(), 'mvalue': integer()}, spec=SPEC_ASG,
+         let={'bm': 'self.spectrum_bitmap'},
+         requires=[('wf', 'WF(bm)'), ('indices', 'WFI(bm)')],
+         raises={'SpectrumError': 'mvalue <= 0 or nvalue > bm.freq_index_max or nvalue < bm.freq_index_min or '
+                                  'nvalue + mvalue - 1 > bm.n_max or nvalue - mvalue <= bm.n_min'},
+         ensures=[('wf', 'WF(bm)'),
+                  # exactly the slots N-M .. N+M-1 become OCCUPIED, everything else keeps its value
+                  ('marks_exactly_the_range', 'forall(lambda k: bm.bitmap[k] == (BitmapValue.OCCUPIED if INRANGE(bm, nvalue, mvalue, k) '
+                                              'else old(bm.bitmap)[k]), len(bm.bitmap))'),
+                  ],
+         # frame: the map keeps its list object (only its contents change)
+         modifies=['self.spectrum_bitmap.bitmap[*]'])
+
+contract('gnpy.topology.spectrum_assignment.bitmap_sum', props=['C14'],
+         params={'band1': ilist('n1', enum='BitmapValue'), 'band2': ilist('n2', enum='BitmapValue')}, spec=SPEC_BM,
+         requires=[('values1', 'VALS(band1)'), ('values2', 'VALS(band2)')],
+         ensures=[('length', 'len(result) == (len(band1) if len(band1) <= len(band2) else len(band2))'),
+                  # a slot is free in the union only if it is FREE in both; UNUSABLE counts as not free
+                  ('free_iff_both_free', 'forall(lambda k: result[k] == (BitmapValue.FREE if band1[k] == BitmapValue.FREE and '
+                                         'band2[k] == BitmapValue.FREE else BitmapValue.OCCUPIED), len(result))'),
+                  ('fresh', 'result is not band1 and result is not band2')],
+         returns=ilist('nsum', enum='BitmapValue'), modifies=[])
+
+OMS_A = OMSB('a')
+SPEC_SEL = SPEC_ASG + '''
+def FREEWIN(bm, c, r):
+    # slots c-r .. c+r-1 (local indices) all FREE
+    return forall(lambda t: bm.bitmap[t] == BitmapValue.FREE, c - r, c + r)
+def OKWIN(bm, c, r):
+    # the window of half-width r around local index c lies inside the list and inside the guard-band indices
+    return c - r >= 0 and c + r <= len(bm.bitmap) and bm.n_min + c - r >= bm.freq_index_min and bm.n_min + c + r - 1 <= bm.freq_index_max
+'''
+contract('gnpy.topology.spectrum_assignment.determine_slot_numbers', props=['C14'],
+         params={'test_oms': OMS_A, 'requested_n': integer(), 'required_m': integer(), 'per_channel_m': integer()},
+         spec=SPEC_SEL,
+         let={'bm': 'test_oms.spectrum_bitmap', 'c': 'requested_n - test_oms.spectrum_bitmap.n_min'},
+         requires=[('wf', 'WF(bm)'), ('indices', 'WFI(bm)'), ('pcm', 'per_channel_m > 0'),
+                   ('n_on_grid', 'bm.n_min <= requested_n and requested_n <= bm.n_max')],
+         loops={0: {'invariant': [('multiple', 'i >= per_channel_m and (i - per_channel_m) % per_channel_m == 0'),
+                                  ('bounded', 'i - per_channel_m <= required_m or i == per_channel_m'),
+                                  ('prev_window_ok', 'implies(i > per_channel_m, OKWIN(bitmap, center_i, i - per_channel_m))'),
+                                  ('prev_window_free', 'implies(i > per_channel_m, FREEWIN(bitmap, center_i, i - per_channel_m))'),
+                                  ('center', 'center_i == requested_n - bitmap.n_min')]}},
+         ensures=[('multiple_of_channel_width', 'result >= 0 and result % per_channel_m == 0'),
+                  ('not_more_than_required', 'result <= required_m or result == 0'),
+                  ('window_free', 'implies(result > 0, FREEWIN(bm, c, result))'),
+                  ('window_inside_guard_bands', 'implies(result > 0, OKWIN(bm, c, result))')],
+         returns=integer(), pure=True, modifies=[], hints=['requested_n - test_oms.spectrum_bitmap.n_min'])
+
+SPEC_SEL2 = SPEC_SEL + '''
+def ROOM(bm, s, m):
+    # a window of 2m slots starting at local index s lies inside the list and inside the guard-band indices
+    return (0 <= s and s + 2 * m <= len(bm.bitmap) and bm.freq_index[s] >= bm.freq_index_min
+            and bm.freq_index[s + 2 * m - 1] <= bm.freq_index_max)
+'''
+contract('gnpy.topology.spectrum_assignment.spectrum_selection', name='gnpy.topology.spectrum_assignment.spectrum_selection[free N]',
+         props=['C14'],
+         params={'test_oms': OMS_A, 'requested_m': integer(), 'requested_n': const(None), 'policy': const('first_fit')},
+         spec=SPEC_SEL2, let={'bm': 'test_oms.spectrum_bitmap'},
+         requires=[('wf', 'WF(bm)'), ('indices', 'WFI(bm)'), ('m', 'requested_m > 0')],
+         ensures=[('triple', 'implies(result[0] is not None, result[1] == result[0] - requested_m and result[2] == result[0] + requested_m - 1)'),
+                  ('window_free', 'implies(result[0] is not None, FREEWIN(bm, result[0] - bm.n_min, requested_m))'),
+                  ('window_inside_guard_bands', 'implies(result[0] is not None, OKWIN(bm, result[0] - bm.n_min, requested_m))'),
+                  # first fit: no feasible window starts below the returned one ...
+                  ('lowest_feasible', 'implies(result[0] is not None, forall(lambda s: given([ROOM(bm, s, requested_m), '
+                                      'forall(lambda t: bm.bitmap[t] == BitmapValue.FREE, s, s + 2 * requested_m)], False), '
+                                      'result[1] - bm.n_min))'),
+                  # ... and none at all exists when nothing is returned
+                  ('none_only_if_no_room', 'implies(result[0] is None, forall(lambda s: given([ROOM(bm, s, requested_m), '
+                                           'forall(lambda t: bm.bitmap[t] == BitmapValue.FREE, s, s + 2 * requested_m)], False), '
+                                           'len(bm.bitmap)))')],
+         use_at_calls=False, modifies=[])
+
+contract('gnpy.topology.spectrum_assignment.spectrum_selection', name='gnpy.topology.spectrum_assignment.spectrum_selection[fixed N]',
+         props=['C14'],
+         params={'test_oms': OMS_A, 'requested_m': integer(), 'requested_n': integer(), 'policy': const('first_fit')},
+         spec=SPEC_SEL2, let={'bm': 'test_oms.spectrum_bitmap', 'c': 'requested_n - test_oms.spectrum_bitmap.n_min'},
+         requires=[('wf', 'WF(bm)'), ('indices', 'WFI(bm)'), ('m', 'requested_m > 0'),
+                   ('n_on_grid', 'bm.n_min <= requested_n and requested_n <= bm.n_max')],
+         ensures=[('verbatim', 'implies(result[0] is not None, result[0] == requested_n and result[1] == requested_n - requested_m '
+                               'and result[2] == requested_n + requested_m - 1)'),
+                  ('window_free', 'implies(result[0] is not None, FREEWIN(bm, c, requested_m))'),
+                  ('window_inside_guard_bands', 'implies(result[0] is not None, OKWIN(bm, c, requested_m))'),
+                  ('none_only_if_infeasible', 'implies(result[0] is None, given([OKWIN(bm, c, requested_m), '
+                                              'forall(lambda t: bm.bitmap[t] == BitmapValue.FREE, c - requested_m, c + requested_m)], False))')],
+         use_at_calls=False, modifies=[], hints=['requested_n - test_oms.spectrum_bitmap.n_min'])
